@@ -738,6 +738,7 @@ func suiteC11(c *Ctx) []Suite {
 // concurrent call returned something else than the same call alone.
 func concWorker(seed int64, rounds int) {
 	guardOff = true
+	lastOpTried = true // no last-operation file here: its bookkeeping is not meant for several goroutines
 	r := rand.New(rand.NewSource(seed))
 	for round := 0; round < rounds; round++ {
 		// shared objects
